@@ -489,6 +489,11 @@ def run(tier: str, seed: int) -> int:
         n_dis += 1
         oc.violation({'property': PROP, 'kind': 'correspondence-broken', 'unchecked': 'Generated/RepLayouts.lean == live descriptions',
                       'problems': table_problems[:5]}, found_input=False)
+    # (v') the gate layers of every shipped layout realise its chain: each ancilla couples once with each of its two neighbours
+    for name in L.LAYOUTS:
+        for prob in L.layout_gate_problems(name):
+            oc.violation({'property': PROP, 'kind': 'predicate-fails-on-implementation',
+                          'failure': {'what': 'layout gate layers do not couple every ancilla once with each chain neighbour', **prob}})
     # (vi) semantics == stim
     sem = check_semantics(tier, seed)
     if sem['bad']:
